@@ -4,11 +4,12 @@ from contracts import c13, stubs, enc
 LEVEL = "other"
 TRUSTED = ['solver contract A1']
 ASSUMPTIONS = ['A4 (not proved): an integer flow that is a superposition of walks has a walk decomposition with at most |E|-|V|+2 walks; the lower bounds are lower bounds']
-EXPLANATION = ('Proved (PyVC, unbounded): the ENCODERS of the walk model used by MinFlowDecompCycles: kFlowDecompCycles._encode_flow_decomposition (every admitted assignment explains every non-ignored edge exactly, with multiplicities) and _encode_subset_constraints (every subset constraint has a responsible walk that USES - min(1, multiplicity) - the requested share of its distinct edges), sound and complete for every assignment of the columns. Proved (PyVC, unbounded): the search loop of MinFlowDecompCycles.solve (range from the lower bound to a sufficient k, acceptance only of proven optima, fail-closed on inconclusive runs and on the elapsed-time cut). NOT proved: minimality over all walk decompositions and scale invariance; decided by the BOUNDED comparison with an exact walk-enumeration oracle and by the relational scaling check (rc/p_C04.py). Open known finding: repetition caps taken from flow values (D17).')
+EXPLANATION = ('Proved (PyVC, unbounded): MinFlowDecompCycles.get_lowerbound_k is the maximum of the lowerbound_k option (default 1), the width of the s-t digraph (built with the additional starts / ends of the model) without the synthetic and the ignored edges, and the min-gen-set bound when that option is on; it is cached; the ENCODERS of the walk model used by MinFlowDecompCycles: kFlowDecompCycles._encode_flow_decomposition (every admitted assignment explains every non-ignored edge exactly, with multiplicities) and _encode_subset_constraints (every subset constraint has a responsible walk that USES - min(1, multiplicity) - the requested share of its distinct edges), sound and complete for every assignment of the columns. Proved (PyVC, unbounded): the search loop of MinFlowDecompCycles.solve (range from the lower bound to a sufficient k, acceptance only of proven optima, fail-closed on inconclusive runs and on the elapsed-time cut). NOT proved: minimality over all walk decompositions and scale invariance; decided by the BOUNDED comparison with an exact walk-enumeration oracle and by the relational scaling check (rc/p_C04.py). Open known finding: repetition caps taken from flow values (D17).')
 
 
 def units(tier):
-    return [u for u in c13.u_min_loops() if "C04" in u.props] + [u for u in enc.all_units() if "C04" in u.props or "kFlowDecompCycles" in u.name]
+    from contracts import c03
+    return [u for u in c13.u_min_loops() if "C04" in u.props] + [u for u in enc.all_units() if "C04" in u.props or "kFlowDecompCycles" in u.name] + c03.cyc_units()
 
 
 def bounded(tier, seed):
